@@ -8,6 +8,13 @@ var (
 
 type Topic []byte
 
+// Done reports whether every level has been consumed. It is the only way to tell the end of a
+// topic from an empty level ("a//b", "a/", "/a" are legal and distinct from "a"): Next returns an
+// empty token for both.
+func (t Topic) Done() bool {
+	return t == nil
+}
+
 func (t Topic) Next() (Topic, string) {
 	end := bytes.IndexByte(t, SEP)
 	if end < 0 {
